@@ -27,7 +27,7 @@ def run(ctx):
     for lang in ('PL', 'LTL', 'CTL', 'CTLS'):
         fam = formulas_of(lang)
         for f in fam:
-            cases.append({'op': 'roundtrip', 'lang': lang, 'f': f, 'style': rnd.choice(['obj', 'obj', 'raw'])})
+            cases.append({'op': 'roundtrip', 'lang': lang, 'f': f, 'style': rnd.choice(['obj', 'obj', 'raw', 'strsub', 'ops'])})
         for f in rnd.sample(fam, min(len(fam), 150 if q else len(fam))):
             m = {'p': rnd.choice(ATOMS), 'q_1': rnd.choice(ATOMS)}
             cases.append({'op': 'roundtrip', 'lang': lang, 'f': rename(f, m), 'style': 'obj'})
